@@ -11,10 +11,13 @@ import (
 	"fmt"
 	"regexp"
 	"strings"
+	"sync"
+	"sync/atomic"
 	"unicode"
 
 	domainmatcher "github.com/IrineSistiana/mosproxy/internal/domain_matcher"
 	"github.com/IrineSistiana/mosproxy/verif/internal/gen"
+	"github.com/IrineSistiana/mosproxy/verif/internal/racelog"
 )
 
 func init() {
@@ -191,7 +194,7 @@ func c11GenName(r *gen.R, maxLabels int) [][]byte {
 	total := 0
 	for i := 0; i < n; i++ {
 		var l []byte
-		if r.P(0.6) {
+		if r.P(0.6) || (maxLabels > 8 && r.P(0.8)) {
 			l = gen.Pick(r, c11Pool)
 		} else {
 			l = c11GenLabel(r)
@@ -289,6 +292,9 @@ func runC11(c *Ctx) {
 		r := gen.New(c.Seed, "c11", idx)
 		c11One(c, r, idx)
 	})
+	if c.ViolationCount() == 0 {
+		c11Concurrent(c)
+	}
 }
 
 func c11Perms(n int) [][]int {
@@ -352,7 +358,11 @@ func c11One(c *Ctx, r *gen.R, idx int) {
 				}
 			}
 		default:
-			labels = c11GenName(r, 4)
+			if r.P(0.08) {
+				labels = c11GenName(r, 40) // many short labels (ip6.arpa style reverse names have 34)
+			} else {
+				labels = c11GenName(r, 4)
+			}
 		}
 		// deep copy, lower
 		lower := make([][]byte, len(labels))
@@ -601,4 +611,92 @@ func sortStrings(s []string) {
 			s[j], s[j-1] = s[j-1], s[j]
 		}
 	}
+}
+
+// c11Concurrent: the router asks one matcher from many goroutines at once. A set with regexp and
+// suffix entries is loaded once, every probe is answered sequentially first (and agrees with the
+// reference), then 8 goroutines ask for different probes at the same time: each answer equals the
+// sequential one.
+func c11Concurrent(c *Ctx) {
+	r := gen.New(c.Seed, "c11conc", 0)
+	m := domainmatcher.NewMixMatcher()
+	var entries []*c11Entry
+	lines := []string{`regexp:^www\.`, `regexp:example\.com$`, `regexp:^(a|b)\.`, `regexp:^.*x-1.*$`, `regexp:.*\\00`, "domain:ab.example", "full:www.b"}
+	res := map[string]*regexp.Regexp{}
+	for _, l := range lines {
+		if err := m.Add([]byte(l)); err != nil {
+			c.Inconclusive("concurrent part: Add failed: " + err.Error())
+			return
+		}
+		e := &c11Entry{Kind: "domain"}
+		switch {
+		case strings.HasPrefix(l, "regexp:"):
+			e.Kind, e.Re = "regexp", strings.TrimPrefix(l, "regexp:")
+			res[e.Re] = regexp.MustCompile(e.Re)
+		case strings.HasPrefix(l, "full:"):
+			e.Kind = "full"
+			e.Raw = splitLabels(strings.TrimPrefix(l, "full:"))
+			e.Labels = e.Raw
+		default:
+			e.Raw = splitLabels(strings.TrimPrefix(l, "domain:"))
+			e.Labels = e.Raw
+		}
+		entries = append(entries, e)
+	}
+	var probes [][]byte
+	var want []bool
+	for i := 0; i < 96; i++ {
+		n := c11GenName(r, 5)
+		for j := range n {
+			n[j] = c11Lower(n[j])
+		}
+		w := c11Wire(n)
+		probes = append(probes, w)
+		got := m.Match(w)
+		ref, _ := c11Ref(entries, res, n)
+		if got != ref {
+			c.Inconclusive("concurrent part: sequential answer differs from the reference (judged by the main part)")
+			return
+		}
+		want = append(want, got)
+	}
+	rounds := c.N(4000, 60000)
+	var wrong atomic.Int64
+	var first atomic.Value
+	var wg sync.WaitGroup
+	for g := 0; g < 8; g++ {
+		wg.Add(1)
+		go func(g int) {
+			defer wg.Done()
+			rr := gen.New(c.Seed, "c11conc/g", g)
+			for i := 0; i < rounds && wrong.Load() == 0; i++ {
+				k := rr.Intn(len(probes))
+				if m.Match(probes[k]) != want[k] {
+					wrong.Add(1)
+					first.CompareAndSwap(nil, hex.EncodeToString(probes[k]))
+				}
+			}
+		}(g)
+	}
+	wg.Wait()
+	c.Ev.Eval(8 * rounds)
+	c.Ev.Count("concurrent_matches", int64(8*rounds))
+	if wrong.Load() > 0 {
+		c.Violation("mismatch:concurrent", fmt.Sprintf("with 8 goroutines matching different names against one set at the same time, a probe (wire %v) got a different answer than when it was asked alone; entries=%q", first.Load(), lines), c11Case{Entries: lines, Probe: fmt.Sprint(first.Load()), Stage: "concurrent"})
+		return
+	}
+	for key, rs := range racelog.Dedup(selfRaces("/internal/domain_matcher.", "dnsmsg.ToReadable", "dnsmsg.AppendReadable")) {
+		c.Violation("data-race:matcher", fmt.Sprintf("data race in the matcher while it was asked from 8 goroutines (%d reports):\n%s", len(rs), rs[0].Text), map[string]any{"key": key, "report": rs[0].Text})
+	}
+	c.Ev.Distinct("concurrent", "answers-equal-sequential")
+}
+
+func splitLabels(s string) [][]byte {
+	var out [][]byte
+	for _, l := range strings.Split(strings.TrimSuffix(s, "."), ".") {
+		if l != "" {
+			out = append(out, []byte(l))
+		}
+	}
+	return out
 }
